@@ -1,8 +1,8 @@
 #!/verif/.venv/bin/python
 # Replay of a solver counterexample against the unmodified code (no shims).
-# property=C02 kernel=step label=c02:inv_retarget_after_fall
+# property=C02 kernel=eom label=c02:prefix
 import sys
 sys.path[:0] = ['/repo' + "/pulser-core", '/repo' + "/pulser-simulation", "/verif"]
 from symx.replay import replay
-sys.exit(replay(check='checks.c02', kernel='step', shape={'own': {'clock': 1, 'local': True, 'slots': ['pulseA', 'delay'], 'mod': True, 'pj': 'custom', 'targets_a': ['q0'], 'targets_b': ['q1']}, 'op': ['add_target', 'diff'], 'maxseq': True, 'nbarriers': 1},
-                assignment={'max_sequence_duration': 6, 'own.min_duration': 2, 'own.tr': 2, 'own.pjt': 0, 'own.min_retarget': 4, 'own.fixed_retarget': 1, 'own.s0.dur': 2, 'own.s1.dur': 2, 'buf#1.start': 0, 'buf#1.end': 1, 'buf#2.start': 0, 'buf#2.end': 0}, label='c02:inv_retarget_after_fall'))
+sys.exit(replay(check='checks.c02', kernel='eom', shape={'own': {'clock': 1, 'local': False, 'slots': ['pulseA', 'delay'], 'mod': True, 'pj': 'derived', 'det_off': 0.0, 'eom': {'custom_buffer': False, 'blocks': []}}, 'op': ['enable_eom', 0.0], 'maxseq': True},
+                assignment={'max_sequence_duration': 5, 'own.min_duration': 1, 'own.tr': 1, 'own.eom_tr': 1, 'own.s0.dur': 1, 'own.s1.dur': 1, 'buf#1.start': 0, 'buf#1.end': 0, 'buf#2.start': 0, 'buf#2.end': 1, 'buf#3.start': 0, 'buf#3.end': 0, 'buf#4.start': 0, 'buf#4.end': 0}, label='c02:prefix'))
